@@ -115,3 +115,21 @@ def d70_groupby_shift_repeating_index_disk(case, rec):
         return not x.index.is_unique
     except Exception:
         return False
+
+
+def d74_frame_reduction_divisions_after_optimize(case, rec):
+    """C17: the result of a reduction over the rows of a FRAME (a Series labelled by the column names) reports the divisions
+    (min(columns), max(columns)) on the logical plan and unknown divisions once lowered; persist()/legacy export optimize first."""
+    if rec.get("kind") != "cut-changes-divisions" or not rec.get("cut_divisions_unknown") or not isinstance(case, dict) or "steps" not in case:
+        return False
+    vid = (rec.get("cut") or [None])[0]
+    step = next((s for s in case["steps"] if s["id"] == vid), None)
+    if step is None or step["op"] not in ("reduce", "frame_stat", "frame_nunique", "reduction_custom"):
+        return False
+    try:
+        from . import interp, ops
+
+        pv = interp.run_pandas(case)
+        return ops.kind_of(pv[step["in"][0]]) == "frame" and ops.kind_of(pv[vid]) in ("series", "frame")
+    except Exception:
+        return False
